@@ -228,17 +228,23 @@ check("C20",
       "Coq proof over regex ASTs translated from the source (sound static cost analysis) + vm_compute correspondence against re + timing oracle", "DESIGN.md 5/C20")
 
 check("C03",
-      "Theorems (Coq, 11, for every finite sequence of callRemote / callRemoteOnly / locally rejected calls, answers, errors and answer-violations "
-      "for any request id, complete()/fail() invoked on any request object at any time (send failure, late answer), connectionLost/shutdown and "
-      "eventual-queue turns): no Deferred is fired twice; the first outcome is final under every continuation; waitingForAnswers holds exactly the "
+      "Theorems (Coq, 14, for every finite sequence of callRemote / callRemoteOnly / locally rejected calls, answers, errors and answer-violations "
+      "for any request id, complete()/fail() invoked on any request object at any time (send failure, late answer), connectionLost/shutdown with any "
+      "reason (a class listed in LOST_CONNECTION_ERRORS, a proper subclass of one, an unrelated exception) and eventual-queue turns): no Deferred is "
+      "fired twice; the first outcome is final under every continuation; waitingForAnswers holds exactly the "
       "registered requests that have not fired (unique, fresh ids); whenever the broker is disconnected and the eventual queue is empty the table is "
       "empty and every callRemote has fired exactly once, and loss followed by |queue| turns always reaches that state; late complete/fail/answers "
       "fire nothing; the only exception is removeRequest's KeyError on a late complete(), which changes nothing; calls on a dead broker fail at once "
-      "with DeadReferenceError. PendingRequest.complete/fail and Broker.finish are translated statement by statement from the AST into programs that "
+      "with DeadReferenceError; every request pending when the connection ends fires with exactly the outcome the reason maps to, which is "
+      "DeadReferenceError for every lost-connection reason, subclasses included (the test of abandonAllRequests -- Failure.check vs exact-type "
+      "membership -- and the list are translated). PendingRequest.complete/fail and Broker.finish are translated statement by statement from the AST into programs that "
       "the model interprets (plus shape facts for newRequestID, add/remove/getRequest, abandonAllRequests, _callRemote's commitment points and the "
-      "Answer/Error unslicers); every run validates about 3000 recorded traces (real Broker pairs cut after sampled / all byte offsets in both "
-      "directions, 7 call mixes, 7 ways of ending the connection; 600 random op sequences on the real objects) step by step against the model with "
-      "vm_compute, and a direct oracle (fire attempts per Deferred == 1, table empty, no escaped exception) also runs on real Tubs through "
+      "Answer/Error unslicers); every run validates about 4500 recorded traces (real Broker pairs cut after sampled / all byte offsets in both "
+      "directions, 7 call mixes, 7 ways of ending the connection, the reason drawn from a 24-member family: the listed classes, every stock twisted / "
+      "OpenSSL subclass, ad-hoc subclasses, unrelated exceptions, each with 0..n calls unsent / hanging / in flight / answered; 600 random op "
+      "sequences on the real objects) step by step against the model with "
+      "vm_compute, and a direct oracle (fire attempts per Deferred == 1, table empty, no escaped exception, abandoned requests get DeadReferenceError "
+      "iff the reason is a lost connection by an independently written issubclass rule, other reasons unchanged) also runs on real Tubs through "
       "shutdown, cuts and connection replacement.",
       "Modelled, not verified: Twisted Deferred/maybeDeferred and the eventual queue's FIFO order; logging inside fail/complete is assumed not to "
       "raise; Banana parsing and the unslicer plumbing are tied by shape facts and the cut sweep, not modelled; in-memory transports, no TLS.",
